@@ -56,22 +56,7 @@ TRUSTED = [
     'chronicle.datetime / schedule.datetime replaced by a class / namespace with a controlled now()',
 ]
 
-class _AnyDatetime(type):
-    """the stand-in datetime class must still recognise real datetimes in isinstance()"""
-
-    def __instancecheck__(cls, obj):
-        return isinstance(obj, _dt.datetime)
-
-
-def fake_datetime(clock):
-    """subclass of datetime whose now() is read from `clock.now` (the datetime module is not touched)"""
-
-    class FakeDT(_dt.datetime, metaclass=_AnyDatetime):
-        @classmethod
-        def now(cls, tz=None):  # pylint: disable=arguments-differ
-            return clock.now
-
-    return FakeDT
+fake_datetime = c18_cal.fake_datetime
 
 
 EPOCH = _dt.datetime(1970, 1, 1, tzinfo=_dt.UTC)
@@ -381,11 +366,12 @@ def canon_model(reply, tie_insensitive, by_uid):
 
 
 def _ties(obs, by_uid):
-    """order-insensitive among entries with the same completion instant"""
+    """when the tie-break of equal instants is not the modelled one: compare the sequence of completion
+    instants only (which entry of several equal ones survives a limit is then not determined)"""
     out = []
     for x in obs:
         if isinstance(x, list) and x and x[0] == 'ok':
-            out.append(['ok'] + sorted(x[1:], key=lambda u: (-by_uid[u]['completed'], u)))
+            out.append(['ok'] + [by_uid[u]['completed'] if u in by_uid else u for u in x[1:]])
         else:
             out.append(x)
     return out
@@ -530,6 +516,19 @@ def corpus():
     return [{'kind': 'history', 'ops': ops} for ops in out]
 
 
+def load_corpus():
+    """minimised past failures / scenario files of corpus/C18 (replayed before anything generated)"""
+    d = os.path.join(common.VERIF, 'corpus', 'C18')
+    out = []
+    if os.path.isdir(d):
+        for f in sorted(os.listdir(d)):
+            if f.endswith('.json'):
+                c = json.load(open(os.path.join(d, f)))
+                if c.get('kind') == 'history':
+                    out.append({'kind': 'history', 'ops': c['ops']})
+    return out
+
+
 # ------------------------------------------------------------------ shrinking
 def shrink(real, case, sig, floor_us):
     """drop operations one at a time while the same signature still fires"""
@@ -588,8 +587,7 @@ class CompleteEnv:
         self.clock = types.SimpleNamespace(now=EPOCH)
         self.saved = sched.datetime
         sched.log.disabled = True  # 'did not update its state vector' for the empty value lists used here
-        sched.datetime = types.SimpleNamespace(datetime=fake_datetime(self.clock), UTC=_dt.UTC, timedelta=_dt.timedelta,
-                                               time=_dt.time, date=_dt.date, timezone=_dt.timezone)
+        sched.datetime = c18_cal.fake_datetime_module(self.clock)
         real.context.git_rev = 'rev0'
         self.dir = real.fresh()
 
@@ -705,8 +703,8 @@ def _run(ctx, res, real):
                 'a query returned at least one entry; distinct by canonical observation')
     res.assumptions = list(TRUSTED)
     floor_us = inst(1980, 1, 1)
-    cases = corpus()
-    n = 2500 if thorough else 600
+    cases = load_corpus() + corpus()
+    n = 5000 if thorough else 600
     for _ in range(n):
         cases.append(gen_case(r))
     lines, pending = [], []
@@ -742,7 +740,7 @@ def _run(ctx, res, real):
         for h in tmp.hits:
             if h['sig'] == sig:
                 res.hit(sig, h['what'], h['replay'])
-    run_complete(real, res, r, 200 if thorough else 40)
+    run_complete(real, res, r, 400 if thorough else 40)
     # generated definitions on a grid + calendar
     grid = keep_grid(common.REPO)
     gl = [common.sx(['chron', ['keep', a, c, b, es, s]]) for (a, c, b, es, s), _v in grid]
